@@ -209,6 +209,25 @@ def check_sequence(ctx, tokens, ue):
     if not r.ok or str(r.value) != "/x/y":
         ctx.violation("slash-leading-part-does-not-replace", case, {"tokens": list(tokens)})
         return
+    # one joined part that spells several tokens: the result is the pointer extended by each of them in turn, and its
+    # ancestors are what they are for the same pointer written out
+    extra = [t for t in list(tokens)[-2:] if t == t.lstrip() and "\\" not in t] + ["b", "c"]
+    part = "/".join(rp.encode_token(t) for t in extra)
+    if part and not part.startswith("/"):
+        for how, made in (("join", impl.call(lambda: p.join(part))), ("slash", impl.call(lambda: p / part)), ("join(two parts)", impl.call(lambda: p.join(part, part)))):
+            want = list(tokens) + extra * (2 if how == "join(two parts)" else 1)
+            ctx.count("joined_parts_spelling_several_tokens")
+            if not made.ok:
+                ctx.violation("join-raised:%s" % type(made.exc).__name__, case, {"tokens": list(tokens), "joined": part, "error": made.desc()})
+                return
+            q, chain = made.value, []
+            for _ in range(len(want) + 1):
+                chain.append(str(q))
+                q = q.parent()
+            expected = [rp.encode(want[:k]) for k in range(len(want), -1, -1)]
+            if chain != expected or made.value != JSONPointer(rp.encode(want), unicode_escape=ue) or not made.value.is_relative_to(p):
+                ctx.violation("joined-part-of-several-tokens:ancestors-wrong", case, {"tokens": list(tokens), "joined": part, "route": how, "ancestors": chain, "expected": expected})
+                return
 
 
 def is_ext(t):
